@@ -20,6 +20,7 @@ from typing import cast, Any, ClassVar, Optional, Union
 import elementpath.aliases as ta
 
 from elementpath.helpers import SPACES_OR_COMMENTS, upper_camel_case, is_ncname, ordinal
+from elementpath.tdop import SPECIAL_SYMBOLS
 from elementpath.exceptions import ElementPathTypeError, \
     ElementPathValueError, MissingContextError, xpath_error
 from elementpath.namespaces import XML_NAMESPACE, XSD_NAMESPACE, XPATH_FUNCTIONS_NAMESPACE, \
@@ -225,7 +226,8 @@ class XPath2Parser(XPath1Parser):
             # by symbols '(:' and ':)' and can be nested. The current token is
             # saved and restored after parsing the entire comment. Comments
             # cannot be inside a prefixed name ':' specification.
-            self.token.unexpected(':')
+            if self.token.symbol == ':' and self.token.lbp:
+                raise self.token.wrong_syntax()
             token = self.token
 
             comment_level = 1
@@ -236,9 +238,19 @@ class XPath2Parser(XPath1Parser):
                 else:
                     comment_level += 1
             self.advance(':)')
-
-            self.next_token.unexpected(':')
             self.token = token
+
+            # Rebuild the token that follows the comment, because the role of a
+            # token can depend on the one that precedes it (e.g. ':' and '?').
+            if self.next_token.symbol == '(end)':
+                pass
+            elif self.next_token.symbol in SPECIAL_SYMBOLS:
+                self.next_token = type(self.next_token)(self, self.next_token.value)
+            else:
+                self.next_token = type(self.next_token)(self)
+
+            if self.next_token.symbol == ':' and self.next_token.lbp:
+                raise self.next_token.wrong_syntax()
 
         return self.token
 
